@@ -21,7 +21,7 @@ From Coq Require Import List ZArith Reals String.
 Import ListNotations.
 From Coquelicot Require Import Coquelicot.
 From AGGen Require Import GenNograd.
-From AG Require Import RealPrelude PiecewiseConst NogradTie Run14.
+From AG Require Import RealPrelude PiecewiseConst NogradTie Run14 Extend IndependentTie.
 From AG Require Import Toposort Tagged Tower Run08 TaggedProof TowerAlg FwdCorrect TowerRing MixInterp MixStep MixBackward MixEval.
 
 Theorem C14_nondifferentiable_returns_plain :
@@ -75,6 +75,36 @@ Theorem C14_integer_model_computes_the_real_functions :
     rmodel code (IZR pc / IZR qc)%R (IZR p / IZR q)%R = IZR (zmodel code pc qc p q).
 Proof. exact zmodel_computes_rmodel. Qed.
 Print Assumptions C14_integer_model_computes_the_real_functions.
+
+(* "independent of the input": the model's test is the one tracer.trace makes (translated on every run); one step of the
+   evaluator then gives the exact zero in both modes and leaves the trace; and in the array world the source's zero is
+   the ARGUMENT's in reverse mode (make_vjp) and the OUTPUT's in forward mode (make_jvp), as the property states *)
+Theorem C14_independent_output_model_follows_source :
+  (forall (K : Type) (t : Z) (v : value K), model_depends K t v = gen_output_depends (is_box K v) (trace_of K v) t)
+  /\ independent_vjp_zero = gen_independent_vjp_zero /\ independent_jvp_zero = gen_independent_jvp_zero.
+Proof. exact (conj model_depends_follows_source independent_zero_spaces_follow_source). Qed.
+Print Assumptions C14_independent_output_model_follows_source.
+
+Theorem C14_grad_of_independent_output_is_zero :
+  forall (K : Type) (k0 k1 : K) kadd ksub kmul kopp kF ksign kpos kofZ sup f env body arg s x s1 t se endv s3,
+    eval K k0 k1 kadd ksub kmul kopp kF ksign kpos kofZ sup f env arg s = (Val x, s1) ->
+    enter K s1 = (t, se) ->
+    eval K k0 k1 kadd ksub kmul kopp kF ksign kpos kofZ sup f (cons (VBox K t x (NV K (List.length (store K s1)))) env) body
+         {| top := top K se; store := app (store K se) (cons (root_node K k0) nil); noise := noise K se |} = (Val endv, s3) ->
+    model_depends K t endv = false ->
+    eval K k0 k1 kadd ksub kmul kopp kF ksign kpos kofZ sup (S f) env (Grad body arg) s = (Val (VNum K k0), leave K sup s3).
+Proof. exact grad_of_independent_output_is_zero. Qed.
+Print Assumptions C14_grad_of_independent_output_is_zero.
+
+Theorem C14_deriv_of_independent_output_is_zero :
+  forall (K : Type) (k0 k1 : K) kadd ksub kmul kopp kF ksign kpos kofZ sup f env body arg s x s1 t s2 endv s3,
+    eval K k0 k1 kadd ksub kmul kopp kF ksign kpos kofZ sup f env arg s = (Val x, s1) ->
+    enter K s1 = (t, s2) ->
+    eval K k0 k1 kadd ksub kmul kopp kF ksign kpos kofZ sup f (cons (VBox K t x (NJ K (VNum K k1))) env) body s2 = (Val endv, s3) ->
+    model_depends K t endv = false ->
+    eval K k0 k1 kadd ksub kmul kopp kF ksign kpos kofZ sup (S f) env (Deriv body arg) s = (Val (VNum K k0), leave K sup s3).
+Proof. exact deriv_of_independent_output_is_zero. Qed.
+Print Assumptions C14_deriv_of_independent_output_is_zero.
 
 Example C14_floor_at_5_halves : is_derive (fun y => (y * rfloor y)%R) (5 / 2)%R 2%R.
 Proof. exact x_floor_x_at_2_5. Qed.
